@@ -599,8 +599,13 @@ def run(chk) -> None:
     else:
         it, tgt, rec, site = ems[0]
         a, b, t = (e.id for e in tgt.elts)
+        keyed = astq.match(it, f"sorted({store}, key=K_)") is not None and isinstance(it, ast.Call)
         if norm(it) == f"sorted({store})":
             chk.ok("stack-emission", fi.site(site), "stackings are emitted in sorted order, one per recorded triple")
+        elif isinstance(it, ast.Call) and astq.callee_name(it) == "sorted" and len(it.args) == 1 and norm(it.args[0]) == store and any(k.arg == "key" for k in it.keywords):
+            from checks import c11e
+
+            c11e.check_sort_key(chk, fi, it, "stack-emission", "stackings")
         elif norm(it) in (store, f"set({store})", f"reversed({store})", f"list({store})"):
             chk.violation("stack-emission", fi.site(site), f"stackings are emitted by iterating `{norm(it)}`, not sorted({store}): the output order follows the KD-tree / set order", K(fi, "emission"), found=norm(it))
         else:
